@@ -416,6 +416,12 @@ func VH_prefetch_step() {
 	vapi.AssertBytesEqual(nb[:len(B)], B, "prefetch changed already buffered bytes")
 	vapi.AssertBytesEqual(nb[len(B):], D[:conn.Pos], "prefetched bytes differ from what the client sent")
 	vapi.Assert(layer4.VerifOffset(cx) == off, "prefetch moved the read offset")
+	// ownership: whatever prefetch gave back to the buffer pool may be handed to another
+	// connection at once - scribbling over it must not change this connection's bytes
+	other := layer4.VerifBufPoolGet()
+	other = other[:cap(other)]
+	copy(other, vapi.BytesN("junk", layer4.VerifPrefetchChunkSize))
+	vapi.AssertBytesEqual(layer4.VerifBuf(cx)[len(B):], D[:conn.Pos], "the connection's matching buffer aliases a chunk that is back in the pool")
 	if capB-len(B) >= layer4.VerifPrefetchChunkSize {
 		vapi.Cover("read in place")
 	} else {
